@@ -704,9 +704,10 @@ class BaseSpectrum:
             x = np.insert(x, x.size, w2)
             y = np.insert(y, y.size, 0.0 * y.unit)
 
-        # A table that was asked to keep its negative values must not
-        # have them zeroed by tapering.
-        kwargs = {}
+        # Tapering must not zero negative values inside the original range:
+        # a table keeps its own ``keep_neg`` setting, anything else
+        # (e.g., a composite built from such a table) keeps what it samples.
+        kwargs = {'keep_neg': True}
         if isinstance(self._model, Empirical1D):
             kwargs['keep_neg'] = self._model._keep_neg
 
